@@ -204,6 +204,21 @@ CLAIMED["C11"] = (
     "only through a wrong/garbage value or crash (Miri part is under C01).",
     "DESIGN §5 C11")
 
+CLAIMED["C10"] = (
+    "TLA+ spec (IterDsl.tla: the generated loop machine - hoisted source direction, per-adapter counters, "
+    "emit/continue/break outcomes, nested flat_map loop with its direction - versus Std on sequences, with std's "
+    "DoubleEnded/ExactSize typing judgment and konst's one-reversal rule) checked by TLC for every chain in the "
+    "comparison domain; each (chain, consumer) emitted as a program that runs the konst macro and the identical "
+    "std chain",
+    "Exhaustive within bounds at the model level: all type-correct chains of depth <=3 over 11 parametrised adapters "
+    "x 14 consumers (17.4k (chain, consumer) pairs x 5 inputs) satisfy loop-machine = Std except on the known "
+    "shape. On the real code: every depth-<=2 pair (1583 programs) and 1200 depth-3 pairs (all adapter-interaction "
+    "chains + a seeded sample; thorough: all 15 876) are compiled and run through eval!/for_each!/collect_const! on "
+    "five inputs and compared with the specification; the identical std chain is the sanity guard.",
+    "Trusted: TLC, rustc, the generator's closure library. Known finding F8 (take/skip/zip before a reversing "
+    "method) is reported as KNOWN-FINDING when konst's value equals the hoisted-rev model's value exactly.",
+    "DESIGN §5 C10, §6 F8")
+
 NOT_YET = {}
 
 def main():
